@@ -494,6 +494,18 @@ class Interp:
                 else:
                     self.oblig_index(st, fr, tg, lin(e["offset"]), esz, "constindex")
                     tg = self.br(tg, esz * e["offset"], esz)
+            elif k == "subslice":
+                # `[a, rest @ ..]` / `[.., rest]` patterns: the elements from `from` up to `to` (counted
+                # from the end when from_end); the pattern's length test has already been taken
+                et = fr.crate.types[e["ty"]]
+                inner = et.get("inner")
+                if inner is None:
+                    raise Undecided("subslice of %s" % et["s"])
+                esz = self.sizeof(fr.crate, inner)
+                total = self.tlen(st, tg)
+                lo = esz * e["from"]
+                hi = (total - esz * e["to"]) if e["from_end"] else lin(esz * e["to"])
+                tg = self.br(tg, lo, hi - lo)
             else:
                 raise Undecided("projection %s" % k)
             cur_ty = e["ty"]
